@@ -1,13 +1,94 @@
 import Seccomp.Proofs.C01
+import Seccomp.Proofs.Lemmas.Validity
 /-!
 # C05 — every emitted program is a valid seccomp filter with a closed return set
+
+`kernelAccepts` (Model/Raw.lean) is the port of the kernel's `bpf_check_classic` +
+`seccomp_check_filter` (validated against the running kernel by the `verifier` stream of C08);
+`encode` is `bpf.Assemble`.
 -/
 
 namespace C05
 
-/-- **Closed return set**: whatever the event, an accepted policy's filter returns the encoding of the
-    default action, of one of the groups' actions, or ERRNO(ENOSYS) (the latter on x86_64 only).  In
-    particular it always returns (never falls off the end, never gets stuck). -/
+/-- the structural facts behind validity: strict jump bounds and loads inside the record for the whole
+    program, the final instruction is the default return, all skips fit 8 bits, and syntactically every
+    return value is the default's, a group's or the x32 guard's -/
+theorem compile_structure (A : ArchInfo) (e : Endian) (p : Policy) (prog : List Instr)
+    (h : assemblePolicy (some A) (Layout.ofEndian e) p = .ok prog) :
+    StrictOk prog ∧ prog.all fits = true ∧ (∃ pre, prog = pre ++ [.ret (enc p.default)]) ∧
+    RetsIn (enc p.default :: enosys :: p.groups.map (fun g => enc g.action)) prog := by
+  unfold assemblePolicy at h
+  split at h
+  · cases h
+  · split at h
+    · cases h
+    · simp only at h
+      split at h
+      · cases h
+      · rename_i outs ho
+        cases h
+        obtain ⟨hb, hl, hr, hf⟩ := assembleGroups_shape A e p.groups outs ho
+        have hbody : StrictOk (outs.flatten ++ [.ret (enc p.default)]) :=
+          strictOk_append _ _ hb hl (by simp) (strictOk_ret _)
+        refine ⟨strictOk_policyProg _ _ (by simp) hbody, fits_policyProg _ _ (by simp [List.all_append, hf, fits]),
+          ?_, ?_⟩
+        · unfold policyProg
+          simp only
+          split
+          · exact ⟨[Instr.ld 4] ++ [Instr.jif .ne A.archI.id (x32Filter A.archI.x86 ++ (outs.flatten ++ [Instr.ret (enc p.default)])).length 0] ++ [Instr.ld 0] ++ x32Filter A.archI.x86 ++ outs.flatten, by simp⟩
+          · exact ⟨[Instr.ld 4] ++ [Instr.jif .eq A.archI.id 1 0, Instr.ja (x32Filter A.archI.x86 ++ (outs.flatten ++ [Instr.ret (enc p.default)])).length] ++ [Instr.ld 0] ++ x32Filter A.archI.x86 ++ outs.flatten, by simp⟩
+        · intro k hm
+          unfold policyProg at hm
+          simp only at hm
+          have hx : ∀ k, Instr.ret k ∈ x32Filter A.archI.x86 → k = enosys := by
+            intro k hk; cases hxx : A.archI.x86 <;> simp [x32Filter, hxx] at hk; exact hk
+          have hbodyr : Instr.ret k ∈ x32Filter A.archI.x86 ++ (outs.flatten ++ [.ret (enc p.default)]) →
+              k ∈ enc p.default :: enosys :: p.groups.map (fun g => enc g.action) := by
+            intro hk
+            rcases List.mem_append.1 hk with h1 | h1
+            · simp [hx k h1]
+            · rcases List.mem_append.1 h1 with h2 | h2
+              · exact List.mem_cons_of_mem _ (List.mem_cons_of_mem _ (hr k h2))
+              · simp at h2; simp [h2]
+          split at hm
+          · simp only [List.cons_append, List.nil_append, List.mem_cons, reduceCtorEq, false_or] at hm
+            exact hbodyr hm
+          · simp only [List.cons_append, List.nil_append, List.mem_cons, reduceCtorEq, false_or] at hm
+            exact hbodyr hm
+
+/-- **Every accepted policy's program passes the kernel's checker** (if it has at most 4096
+    instructions): non-empty, every jump forward and strictly in bounds, the last instruction is a
+    return (so every path ends in a return), only aligned 32-bit loads inside the 64-byte record, only
+    the permitted opcodes — and it encodes to raw form without loss (all skips fit 8 bits, all operands
+    32 bits).  This covers degenerate accepted policies: groups without names, maximal lists, long
+    condition lists. -/
+theorem compile_kernel_valid (A : ArchInfo) (e : Endian) (p : Policy) (prog : List Instr)
+    (h : assemblePolicy (some A) (Layout.ofEndian e) p = .ok prog) (hlen : prog.length ≤ 4096) :
+    kernelAccepts (prog.map encode) = true ∧ prog.all Instr.fitsRaw = true := by
+  obtain ⟨hs, hf, ⟨pre, hpre⟩, _⟩ := compile_structure A e p prog h
+  refine ⟨?_, fitsRaw_of_strict prog hs hlen hf⟩
+  unfold kernelAccepts
+  simp only [List.length_map, Bool.and_eq_true, decide_eq_true_eq]
+  refine ⟨⟨⟨?_, hlen⟩, allInsnOk_of_strict prog hs⟩, ?_⟩
+  · rw [hpre]; simp
+  · rw [hpre]
+    simp [lastIsRet, encode]
+
+/-- **Closed return set, syntactically**: every `ret` instruction of the program — reachable or not —
+    returns the encoding of the default action, of one of the groups' actions, or ERRNO|ENOSYS. -/
+theorem compile_ret_closed_syntactic (A : ArchInfo) (e : Endian) (p : Policy) (prog : List Instr)
+    (h : assemblePolicy (some A) (Layout.ofEndian e) p = .ok prog) (k : Word) (hk : Instr.ret k ∈ prog) :
+    k = enc p.default ∨ k = 0x00050026#32 ∨ ∃ g ∈ p.groups, k = enc g.action := by
+  have := (compile_structure A e p prog h).2.2.2 k hk
+  simp only [List.mem_cons, List.mem_map] at this
+  rcases this with h1 | h1 | ⟨g, hg, h1⟩
+  · exact .inl h1
+  · exact .inr (.inl h1)
+  · exact .inr (.inr ⟨g, hg, h1.symm⟩)
+
+/-- **Closed return set, semantically**: whatever the event, an accepted policy's filter returns, and
+    the value is the encoding of the default action, of one of the groups' actions, or ERRNO(ENOSYS)
+    (the latter on x86_64 only).  In particular it never falls off the end and never gets stuck. -/
 theorem compile_ret_closed (A : ArchInfo) (e : Endian) (p : Policy) (prog : List Instr)
     (h : assemblePolicy (some A) (Layout.ofEndian e) p = .ok prog) (ev : Event) (a0 : Word) :
     ∃ k, run (words e ev) prog a0 = .ret k ∧
@@ -22,5 +103,22 @@ theorem compile_ret_closed (A : ArchInfo) (e : Endian) (p : Policy) (prog : List
       · rename_i g hg
         exact .inr (.inl ⟨g, List.mem_of_find?_eq_some hg, rfl⟩)
       · exact .inl rfl
+
+/-- the loads of a compiled program are exactly words of `struct seccomp_data`: number, architecture,
+    or a half of one of the six arguments -/
+theorem loads_inside_record (A : ArchInfo) (e : Endian) (p : Policy) (prog : List Instr)
+    (h : assemblePolicy (some A) (Layout.ofEndian e) p = .ok prog) :
+    StrictOk prog := (compile_structure A e p prog h).1
+
+/-! ### non-vacuity: the degenerate policy that broke the pinned tree (all groups empty, DESIGN §7 F1) -/
+
+def allEmpty : Policy :=
+  { default := actKillProcess, groups := [ { names := [], withConds := [], action := actAllow },
+                                           { names := [], withConds := [], action := actErrno } ] }
+
+theorem allEmpty_valid :
+    (match assemblePolicy (some C01.tinyArch) (Layout.ofEndian .little) allEmpty with
+     | .ok prog => kernelAccepts (prog.map encode) && prog.length == 4
+     | .error _ => false) = true := by decide +kernel
 
 end C05
